@@ -561,11 +561,14 @@ impl Writer {
     /// Updates the active file ID and open a new data file with the new active ID.
     #[tracing::instrument(level = "debug", skip(self))]
     fn new_active_datafile(&mut self, fileid: u64) -> Result<(), Error> {
-        self.active_fileid = fileid;
-        self.writer = LogWriter::new(log::create(utils::datafile_name(
+        // Only adopt the new ID once its file exists, otherwise later entries would still go to
+        // the old file while being indexed under the new ID
+        let writer = LogWriter::new(log::create(utils::datafile_name(
             self.ctx.conf.path.as_path(),
-            self.active_fileid,
+            fileid,
         ))?)?;
+        self.active_fileid = fileid;
+        self.writer = writer;
         self.written_bytes = 0;
         Ok(())
     }
